@@ -68,13 +68,13 @@ def same(a, b):
     return type(a) is type(b) and a == b
 
 
-def check_existing(ctx, doc, loc, val):
+def check_existing(ctx, doc, loc, val, tag=None):
     import jsonpath
     from jsonpath import JSONPointer
 
     toks = rp.tokens_of(loc)
     text = rp.encode(toks)
-    case = {"doc": doc, "pointer": text, "expect": "resolves"}
+    case = dict({"doc": doc, "pointer": text, "expect": "resolves"}, **(tag or {}))
     modes = [False] + ([True] if "\\" not in text else [])
     parent_kind = kindname(rp.resolve(doc, toks[:-1])) if toks else "root"
     for ue in modes:
@@ -116,12 +116,12 @@ def check_existing(ctx, doc, loc, val):
     return True
 
 
-def check_unevaluable(ctx, doc, toks, why):
+def check_unevaluable(ctx, doc, toks, why, tag=None):
     import jsonpath
     from jsonpath import JSONPointer
 
     text = rp.encode(toks)
-    case = {"doc": doc, "pointer": text, "expect": "unevaluable"}
+    case = dict({"doc": doc, "pointer": text, "expect": "unevaluable"}, **(tag or {}))
     modes = [False] + ([True] if "\\" not in text else [])
     parent_kind = kindname(rp.resolve(doc, toks[:-1]))
     for ue in modes:
@@ -297,6 +297,24 @@ def key_variants(k):
     return out
 
 
+def run_surrogates(ctx):
+    """Member names holding surrogate code points as such (a high and a low one next to each other are TWO characters,
+    not the astral character they would encode): only Python-built documents can have them, and a replay file cannot
+    hold them, so the class is re-run as a whole on replay."""
+    tag = {"surrogate_names": True}
+    split, astral = "\ud83d\ude00", "\U0001f600"
+    docs = [{split: "split", astral: "astral", "a": {"x\ud800": 1, "\udfff": [2], "\ude00\ud83d": 3}}, {astral: "astral-only", "b": [1]}, {split: "split-only", "\ud800": {"\udc00": 4}}, {"a" + split + "b": 5, "a" + astral + "b": 6}]
+    for doc in docs:
+        for loc, val in nodes(doc):
+            check_existing(ctx, doc, loc, val, tag)
+        ctx.count("documents_with_surrogate_code_points_in_names")
+    for doc, toks in ((docs[1], [split]), (docs[2], [astral]), (docs[2], ["\ud800", "\udc00\udc00"]), (docs[1], ["\ud83d"]), (docs[3], ["a" + split]), (docs[2], ["\ud800\udc00"])):
+        try:
+            rp.resolve(doc, toks)
+        except rp.Unresolvable as e:
+            check_unevaluable(ctx, doc, toks, str(e), tag)
+
+
 def run_scale(ctx):
     """Pointers far into long arrays and far down deep documents; indices on either side of the length."""
     for n in (9, 10, 11, 100, 1000, 16384, 65537):
@@ -329,6 +347,7 @@ def run_scale(ctx):
 def run(spec, ctx):
     if spec.get("kind") == "scale":
         run_scale(ctx)
+        run_surrogates(ctx)
         return
     if spec.get("kind") == "flags":
         # pointer texts with %XX / \uXXXX sequences read under every decoding option, in several orders, in one process
@@ -398,6 +417,9 @@ def finalize(m, tier):
 
 
 def replay(case, ctx):
+    if case.get("surrogate_names"):
+        run_surrogates(ctx)
+        return
     if case.get("flags"):
         from rt import flag_history
 
